@@ -104,7 +104,8 @@ class PeriodicAgent(AbstractScriptedAgent, discriminator="periodic-agent"):
         :type variance: int
         """
         random_increment = random.randint(-variance, variance)
-        self.next_execution_timestep = timestep + random_increment
+        # a start step smaller than the start variance must not schedule the agent before the episode begins
+        self.next_execution_timestep = max(0, timestep + random_increment)
 
     def get_action(self, obs: ObsType, timestep: int) -> Tuple[str, Dict]:
         """Do nothing, unless the current timestep is the next execution timestep, in which case do the action."""
